@@ -1,6 +1,7 @@
 package main
 
 import (
+	"sort"
 	"fmt"
 	"go/token"
 	"go/types"
@@ -97,9 +98,66 @@ func (g *VCGen) calleeEffects(ci ssa.CallInstruction) (heaps []string, allocs bo
 	}
 	fc := g.eng.contractFor(callee)
 	if fc == nil {
+		if len(callee.Blocks) > 0 && (callee.Synthetic != "" || g.eng.isInline(callee)) {
+			// inlined at the call site: its effects are those of its body
+			return g.bodyEffects(callee, 0)
+		}
 		return nil, true, true
 	}
 	return g.contractHeaps(fc, callee)
+}
+
+// bodyEffects: heaps stored to by the body of an inlined function (syntactic over-approximation)
+func (g *VCGen) bodyEffects(fn *ssa.Function, depth int) (heaps []string, allocs bool, all bool) {
+	if depth > 4 {
+		return nil, true, true
+	}
+	seen := map[string]bool{}
+	for _, b := range fn.Blocks {
+		for _, in := range b.Instrs {
+			switch x := in.(type) {
+			case *ssa.Store:
+				seen[g.addrHeapStatic(x.Addr)] = true
+			case *ssa.MapUpdate:
+				h, _ := g.so.mapHeapFor(x.Map.Type().Underlying().(*types.Map))
+				seen[h] = true
+			case *ssa.Alloc:
+				allocs = true
+				seen[g.allocHeap(x)] = true
+			case *ssa.MakeSlice:
+				allocs = true
+				seen[g.so.sliceHeapFor(x.Type().Underlying().(*types.Slice).Elem())] = true
+			case *ssa.MakeMap:
+				allocs = true
+				h, _ := g.so.mapHeapFor(x.Type().Underlying().(*types.Map))
+				seen[h] = true
+			case *ssa.MakeChan, *ssa.MakeClosure, *ssa.Send, *ssa.Select, *ssa.Go, *ssa.Defer:
+				return nil, true, true
+			case *ssa.Call:
+				c := x.Common()
+				var hs []string
+				var al, ev bool
+				if callee := c.StaticCallee(); callee != nil && !c.IsInvoke() && g.eng.intrinsic(callee) == nil && g.eng.contractFor(callee) == nil &&
+					len(callee.Blocks) > 0 && (callee.Synthetic != "" || g.eng.isInline(callee)) {
+					hs, al, ev = g.bodyEffects(callee, depth+1)
+				} else {
+					hs, al, ev = g.calleeEffects(x)
+				}
+				if ev {
+					return nil, true, true
+				}
+				for _, h := range hs {
+					seen[h] = true
+				}
+				allocs = allocs || al
+			}
+		}
+	}
+	for h := range seen {
+		heaps = append(heaps, h)
+	}
+	sort.Strings(heaps)
+	return
 }
 
 func (g *VCGen) contractHeaps(fc *FuncContract, callee *ssa.Function) (heaps []string, allocs bool, all bool) {
@@ -180,7 +238,7 @@ func (g *VCGen) beforeClauses(c *ssa.CallCommon, pos token.Pos, instr ssa.Instru
 }
 
 // beforeNamed: obligations "before <name>: E" evaluated in the state just before the instruction
-func (g *VCGen) beforeNamed(name string, pos token.Pos, instr ssa.Instruction) {
+func (g *VCGen) beforeNamed(name string, pos token.Pos, instr ssa.Instruction, extra ...map[string]SpecVal) {
 	if g.fc == nil {
 		return
 	}
@@ -189,6 +247,11 @@ func (g *VCGen) beforeNamed(name string, pos token.Pos, instr ssa.Instruction) {
 		return
 	}
 	env := g.ownEnv(g.cur)
+	for _, m := range extra {
+		for k, v := range m {
+			env.vars[k] = v
+		}
+	}
 	var blk *ssa.BasicBlock
 	if instr != nil {
 		blk = instr.Block()
@@ -214,6 +277,10 @@ func (g *VCGen) beforeNamed(name string, pos token.Pos, instr ssa.Instruction) {
 		if !ok {
 			continue
 		}
+		if g.beforeApplied == nil {
+			g.beforeApplied = map[string]bool{}
+		}
+		g.beforeApplied[fmt.Sprintf("%s.%d", name, k)] = true
 		g.oblige(fmt.Sprintf("before.%s.%d@%s", name, k, g.fn.Prog.Fset.Position(pos).String()[strings.LastIndex(g.fn.Prog.Fset.Position(pos).String(), "/")+1:]), "requires", goal, "before "+name+": "+cl.Text, pos)
 		// like an assert statement: once checked, the fact is available downstream (a cut point for the solver)
 		g.assumeHere(g.trClause(env, cl))
